@@ -288,3 +288,46 @@ def total_scan(ctx):
                             "start + count of a hunk header overflows for large values: panic in debug builds, a wrapped (bogus) "
                             "range otherwise", ["%s:%d" % (sd.file, s[3])])
     r.floor(E, n, 2, "Result::unwrap sites in scan_diff")
+
+    filter_is_only_a_filter(ctx, "R19-f")
+
+
+def filter_is_only_a_filter(ctx, rid):
+    """R19-f: the user's --filter pattern never takes part in extracting file names or ranges"""
+    p, r = ctx.p, ctx.r
+    r.rule(rid, "format-diff::scan_diff: the text of the `--filter` option (a regular expression supplied by the user) flows only "
+                "into a Regex that is applied with `is_match`; the patterns whose *captures* become the file name and the line "
+                "range are built from constants and `--skip-prefix` alone.  Spliced into the header pattern, the filter decides by "
+                "backtracking how many leading components are dropped: with `-p 1 -f 'src/.*'`, `b/vendor/dep/src/lib.rs` is "
+                "handed to rustfmt as `src/lib.rs`, another file")
+    sd = None
+    for f in p.fns.values():
+        if f.id.endswith("rustfmt_format_diff::scan_diff") or (f.id.endswith("::scan_diff") and "format_diff" in f.id):
+            sd = f
+    if sd is None:
+        r.undecidable(rid, "format-diff scan_diff not found")
+        return
+    fi = [i for i in range(1, sd.argc + 1) if sd.locals[i].replace("&", "").strip() == "str"]
+    unit = [sd] + [g for g in p.fns.values() if g.id.startswith(sd.id + "::{closure")]
+    n = 0
+    for g in unit:
+        regs = {}
+        for c in g.calls():
+            if c.name.endswith("Regex::new") and c.args and c.args[0][0] != "k":
+                d = g.derived_from(c.args[0][1][0])
+                regs[c] = bool(set(fi) & d["args"]) if g is sd else False
+        for c in g.calls():
+            last = c.name.rsplit("::", 1)[-1]
+            if "Regex" not in c.name or last not in ("captures", "captures_iter", "find", "replace", "replace_all", "captures_read") \
+                    or not c.args or c.args[0][0] == "k":
+                continue
+            n += 1
+            d = g.derived_from(c.args[0][1][0])
+            tainted = [rc for rc, t in regs.items() if t and rc in d["calls"]]
+            r.instance(rid, "scan_diff: Regex::%s" % last, "violation" if tainted else "ok", c.loc(),
+                       "pattern built from the filter option" if tainted else "pattern built from constants / skip_prefix")
+            if tainted:
+                r.violation(rid, "scan_diff extracts text with a pattern that contains the --filter expression",
+                            "Regex::%s is applied with a pattern derived from the `file_filter` parameter: what is captured as the file "
+                            "name depends on how the user's expression backtracks" % last, [c.loc(), tainted[0].loc()])
+    r.floor(rid, n, 2, "capturing regex applications in scan_diff")
